@@ -461,7 +461,13 @@ int64_t cmi_pool_acquire_inner(struct cmb_resourcepool *rpp,
                 const bool found = cmi_process_remove_holdable(victim, hrp);
                 cmb_assert_debug(found == true);
 
-                /* Schedule a wakeup for it, but do not switch context yet */
+                /*
+                 * Schedule a wakeup for it, but do not switch context yet. Any
+                 * other wakeup already on its way to the victim in this instant
+                 * must not get there first: it would carry on, and release,
+                 * as if it still held what we just took.
+                 */
+                cmi_process_cancel_awaiteds(victim);
                 cmb_process_interrupt(victim, CMB_PROCESS_PREEMPTED, victim->priority);
 
                  /* Split the loot */
